@@ -53,6 +53,44 @@ def eval_under(t, comps_data, scenario):
     return tm.subst(t, sub) if sub else t
 
 
+def readable_again(ctx, rep, stripped, base, data, carriers, where):
+    """S4: the simplified set (what --of saves) can be prepared again.  normalize is evaluated on the
+    result of strip in the key-space abstraction, for a complete initial set and every single-carrier
+    building: it must accept it (it accepts the complete set itself)."""
+    from epbd import api
+    from . import c07
+    lib = ctx.lib
+    nb = ctx.find_public_fn(lib, "Factors::normalize")
+    ev2, r2, _a = ctx.eval_entry("lib", nb, args=[stripped, tm.sym("in:defaults")])
+    A = keyspace.Abs(base)
+    cases = [(tm.and_(*[A.cond(g) for g in gs]), lf) for gs, lf in api.result_cases(r2)]
+    sub = c07.scenario(A, set(A.keys))
+    n = 0
+    for c in carriers:
+        for extra, tag in (([], ""), ([used("ELECTRICIDAD", "ILU")], "+electricity")):
+            w = [used(c, "CAL")] + extra
+            hits = []
+            und = 0
+            for cond, lf in cases:
+                c2 = tm.subst(eval_under(cond, data, w), sub)
+                if c2 is tm.TRUE:
+                    hits.append("ok" if (lf.op == "adt" and lf.a[1] == 0) else "err")
+                elif c2 is not tm.FALSE:
+                    und += 1
+            n += 1
+            key = "C08/S4/%s%s" % (c, tag)
+            if hits == ["ok"] and not und:
+                rep.discharged(key, "the set simplified for a building using %s%s is accepted again by normalize" % (c, tag))
+            elif und or len(hits) != 1:
+                rep.underivable(key, "the simplified set can be read back and prepared again", construct=where,
+                                why="outcome of normalize(strip(set)) not decided (%d undecided cases)" % und)
+            else:
+                rep.violated(key, "the factor file saved after simplification (--of) can be read back: normalize accepts it",
+                             construct=where, why="for a building using only %s%s, normalize rejects the simplified set "
+                             "(a key it requires was removed)" % (c, tag))
+    return n
+
+
 def run(ctx, rep):
     rep.rule = ("S1 strip is a composition of order-preserving retains over the given list; S2 for every lookup the balance "
                 "performs (oracle: C02 transcription) and every minimal witness set of component classes that makes it happen, "
@@ -60,6 +98,7 @@ def run(ctx, rep):
                 "predicates monotone in component existence); S3 strip is total (no reachable panic)")
     rep.explanation = ("A factor wrongly judged unnecessary matters only for buildings reaching that lookup; need ⇒ kept is "
                        "decided over the finite key space and the finite space of component classes.")
+    rep.rule += "; S4 normalize accepts strip's result for a complete set and every single-carrier building (composition in the key space)"
     rep.assumptions = ["a factor file defines each key at most once", "cogenerated-electricity factors are added after stripping (inside energy_performance)"]
     lib = ctx.lib
     body = ctx.find_public_fn(lib, "Factors::strip")
@@ -120,6 +159,7 @@ def run(ctx, rep):
         needs.append((K("ELECTRICIDAD", "COGEN", "A_RED", st), cg, "file-defined cogeneration export-to-grid factor"))
         needs.append((K("ELECTRICIDAD", "COGEN", "A_NEPB", st), cg + [used("ELECTRICIDAD", "NEPB")],
                       "file-defined cogeneration export-to-nEPB factor"))
+    s4 = readable_again(ctx, rep, r, base, data, carriers, where)
     n = 0
     skipped = 0
     for k, witness, why in needs:
